@@ -1,4 +1,5 @@
 import Dicom.Model.Negotiation
+import Dicom.Props.C09
 /-! # C11 — requester: well-formed proposal, accepted contexts and service lookup agree -/
 namespace Dicom.C11
 open Dicom.Neg
@@ -194,5 +195,97 @@ theorem usable_eq_accepted (proposed : List (Nat × Uid)) (reply : List PcAc) :
 example : addCalls [[[10], [11]], [[12]]] = [(1, [10]), (3, [11]), (5, [12])] := by decide
 example : (processAc [(1, [10]), (3, [11]), (5, [12])] [⟨1, 0, [9]⟩, ⟨3, 3, []⟩, ⟨5, 0, [8]⟩] {}).map (·.byId)
     = some [(1, [10], [9]), (5, [12], [8])] := by decide
+
+/-! ### both ends of a negotiation (C09 and C11 together) -/
+
+/-- the request built from the context definition list: every entry proposed with the requester's
+transfer syntaxes (`build_pres_context_def_list`) -/
+def mkRequest (proposed : List (Nat × Uid)) (tss : List Uid) : List PcRq :=
+  proposed.map fun e => ⟨e.1, e.2, tss⟩
+
+theorem answer_id (cfg : Cfg) (c : PcRq) : (answer cfg c).id = c.id := by
+  unfold answer; split
+  · split <;> rfl
+  · rfl
+
+theorem dictGet_mem (d : List (Nat × Uid)) (hnd : (d.map (·.1)).Nodup) (e : Nat × Uid) (he : e ∈ d) :
+    dictGet d e.1 = some e.2 := by
+  induction d with
+  | nil => simp at he
+  | cons x xs ih =>
+    simp only [List.map_cons, List.nodup_cons] at hnd
+    simp only [List.mem_cons] at he
+    unfold dictGet
+    rcases he with rfl | he
+    · simp [List.find?]
+    · have hne : x.1 ≠ e.1 := fun h => hnd.1 (List.mem_map.mpr ⟨e, he, h.symm⟩)
+      have : (x.1 == e.1) = false := by simpa using hne
+      simp only [List.find?, this]
+      exact ih hnd.2 he
+
+/-- the contexts both sides end up with, computed from the proposal -/
+def agreed (cfg : Cfg) (proposed : List (Nat × Uid)) (tss : List Uid) : List (Nat × Uid × Uid) :=
+  proposed.filterMap fun e =>
+    if (answer cfg ⟨e.1, e.2, tss⟩).result = 0 then some (e.1, e.2, (answer cfg ⟨e.1, e.2, tss⟩).ts) else none
+
+theorem served_eq_agreed (cfg : Cfg) (proposed : List (Nat × Uid)) (tss : List Uid)
+    (hnd : (proposed.map (·.1)).Nodup) :
+    (accept cfg (mkRequest proposed tss)).2 = agreed cfg proposed tss := by
+  have hids : ((mkRequest proposed tss).map (·.id)) = proposed.map (·.1) := by simp [mkRequest]
+  rw [Dicom.C09.served_eq_reported cfg _ (by rw [hids]; exact hnd)]
+  simp only [accept, mkRequest, agreed]
+  clear hnd hids
+  induction proposed with
+  | nil => simp
+  | cons e es ih =>
+    simp only [List.map_cons, List.zip_cons_cons, List.filter_cons, List.filterMap_cons]
+    by_cases h : (answer cfg ⟨e.1, e.2, tss⟩).result = 0
+    · simp only [h, decide_true, ↓reduceIte, List.map_cons, answer_id]
+      rw [ih]
+    · simp only [h, decide_false, Bool.false_eq_true, ↓reduceIte]
+      rw [ih]
+
+/-- **both ends agree.**  The requester proposes its context definition list, the acceptor answers it
+(`accept`), the requester processes the answer (`processAc`): the table of usable contexts the requester
+ends up with — id, abstract syntax, transfer syntax — is exactly the table of contexts the acceptor serves. -/
+theorem negotiation_agreement (cfg : Cfg) (proposed : List (Nat × Uid)) (tss : List Uid)
+    (hnd : (proposed.map (·.1)).Nodup) :
+    ∃ u, processAc proposed (accept cfg (mkRequest proposed tss)).1 {} = some u ∧
+      u.byId = (accept cfg (mkRequest proposed tss)).2 := by
+  have hrid : ((accept cfg (mkRequest proposed tss)).1.map (·.id)) = proposed.map (·.1) := by
+    rw [Dicom.C09.answers_each_once_in_order]; simp [mkRequest]
+  have hprop : ∀ r ∈ (accept cfg (mkRequest proposed tss)).1, r.result = 0 → (dictGet proposed r.id).isSome = true := by
+    intro r hr _
+    simp only [accept, mkRequest, List.map_map, List.mem_map, Function.comp] at hr
+    obtain ⟨e, he, rfl⟩ := hr
+    rw [answer_id, dictGet_mem proposed hnd e he]; rfl
+  obtain ⟨u, h1, h2⟩ := usable_eq_accepted proposed (accept cfg (mkRequest proposed tss)).1 {}
+    (by rw [hrid]; exact hnd) (by intro e he; simp at he) hprop
+  refine ⟨u, h1, ?_⟩
+  rw [h2, served_eq_agreed cfg proposed tss hnd]
+  simp only [accept, mkRequest, agreed, List.nil_append, List.map_map]
+  clear h1 h2 hprop hrid
+  -- both sides are a filterMap over `proposed`; lookups by id find the entry itself
+  have key : ∀ (l : List (Nat × Uid)), (∀ e ∈ l, dictGet proposed e.1 = some e.2) →
+      (List.filter (fun r => decide (r.result = 0)) (List.map ((answer cfg) ∘ fun e => ⟨e.1, e.2, tss⟩) l)).filterMap
+        (fun r => (dictGet proposed r.id).map fun cls => (r.id, cls, r.ts)) =
+      l.filterMap fun e =>
+        if (answer cfg ⟨e.1, e.2, tss⟩).result = 0 then some (e.1, e.2, (answer cfg ⟨e.1, e.2, tss⟩).ts) else none := by
+    intro l hl
+    induction l with
+    | nil => simp
+    | cons e es ih =>
+      have he := hl e (by simp)
+      have ih' := ih (fun x hx => hl x (by simp [hx]))
+      simp only [List.map_cons, Function.comp, List.filter_cons, List.filterMap_cons]
+      by_cases h : (answer cfg ⟨e.1, e.2, tss⟩).result = 0
+      · simp only [h, decide_true, ↓reduceIte, List.filterMap_cons, answer_id, he, Option.map_some]
+        rw [ih']
+      · simp only [h, decide_false, Bool.false_eq_true, ↓reduceIte]
+        rw [ih']
+  exact key proposed (fun e he => dictGet_mem proposed hnd e he)
+
+-- non-vacuity: a proposal of which the acceptor serves the first class with the second transfer syntax
+example : (accept ⟨[[10]], [[21]]⟩ (mkRequest [(1, [10]), (3, [11])] [[20], [21]])).2 = [(1, [10], [21])] := by decide
 
 end Dicom.C11
